@@ -193,4 +193,145 @@ Proof.
     unfold agree_pre. rewrite J1. reflexivity.
 Qed.
 
+(* ---------- the file states ---------- *)
+Lemma file_tail_nb st s hs he hi rem s4 qs fs :
+  parse_query_and_fragment ovr CUrlParser st 4 s rem = POk (s4, qs, fs) -> he <= nlen s ->
+  forallb nb (nskipn he s) = true -> path_nb (file_url s4 hs he hi qs fs).
+Proof.
+  intros H L Hnb. unfold path_nb, file_url. cbn [path_start].
+  rewrite (pqf_path ovr st 4 s rem s4 qs fs 4 hs hs he hi None he H L). exact Hnb.
+Qed.
+
+Lemma file_fresh_nb st hh l u :
+  (' (s2, _, rem) <~ parse_path dbg CUrlParser STFile hh 7 (s_file_css ++ [47]) l ;;
+   ' (s3, qs, fs) <~ parse_query_and_fragment ovr CUrlParser st 4 s2 rem ;;
+   POk (file_url s3 7 7 HI_None qs fs)) = POk u -> path_nb u.
+Proof.
+  intros H. pb H a Ha. destruct a as [[s2 h2] rem]. pb H c Hc. destruct c as [[s3 qs] fs]. inversion H; subst u.
+  assert (PInvB 7 s_file_css (s_file_css ++ [47])) as I1.
+  { apply (pinvb_app 7 s_file_css STFile eq_refl); [exact (pinvb_start s_file_css) | reflexivity]. }
+  pose proof (pinvb_parse_path dbg 7 s_file_css CUrlParser STFile eq_refl eq_refl _ _ _ _ _ _ Ha I1) as I2.
+  apply (file_tail_nb st s2 _ _ _ rem s3 qs fs Hc); [exact (pinvb_len 7 s_file_css STFile eq_refl _ I2) | exact (proj2 I2)].
+Qed.
+
+Theorem parse_file_nb st base_file l u :
+  match base_file with Some b => wf_b b = true /\ AO b /\ path_nb b | None => True end ->
+  parse_file dbg hp hd ovr CUrlParser st base_file l = POk u -> path_nb u.
+Proof.
+  intros Hb. unfold parse_file. destruct (inp_split_first l) as [first_char after_first] eqn:Esf.
+  destruct (match first_char with Some c => is_slash_or_bslash c | None => false end) eqn:Efs.
+  - destruct (inp_split_first after_first) as [next_char after_next].
+    destruct (match next_char with Some c => is_slash_or_bslash c | None => false end).
+    + (* "//" : file host *)
+      intros H. pb H a Ha. destruct a as [[[ser1 flag] hi] remaining]. destruct (pfh_pre hp hd _ _ _ _ _ _ Ha) as (t & ->).
+      pb H he Hhe. apply to_u32_eq in Hhe. subst he. cbv zeta in H.
+      pb H b Hb2. destruct b as [[ser2 hh] rem2].
+      assert (exists P, ser2 = (s_file_css ++ t) ++ P /\ forallb nb P = true) as (P & -> & HP).
+      { destruct flag.
+        - exact (parse_path_start_nb dbg CUrlParser STFile _ _ _ _ _ _ eq_refl Hb2).
+        - assert (PInvB (nlen (s_file_css ++ t)) (s_file_css ++ t) ((s_file_css ++ t) ++ [47])) as I1
+            by (apply (pinvb_app _ _ STFile eq_refl); [apply pinvb_start | reflexivity]).
+          exact (pinvb_split _ _ (pinvb_parse_path dbg _ _ CUrlParser STFile eq_refl eq_refl _ _ _ _ _ _ Hb2 I1)). }
+      assert (7 <= nlen (s_file_css ++ t)) as L7 by (rewrite nlen_app; change (nlen s_file_css) with 7; lia).
+      destruct (negb hh); cbv beta iota zeta in H; pb H c Hc; destruct c as [[ser4 qs] fs]; inversion H; subst u.
+      * assert (nlen (nfirstn 7 ((s_file_css ++ t) ++ P)) = 7) as L by (apply nlen_nfirstn; rewrite nlen_app; lia).
+        apply (file_tail_nb st _ _ _ _ rem2 ser4 qs fs Hc).
+        -- rewrite nlen_app, L. lia.
+        -- rewrite <- L at 1. rewrite nskipn_app_exact, nskipn_app_exact. exact HP.
+      * change (102 :: 105 :: 108 :: 101 :: 58 :: 47 :: 47 :: t) with (s_file_css ++ t).
+        apply (file_tail_nb st _ _ _ _ rem2 ser4 qs fs Hc); [rewrite (nlen_app _ P); lia | rewrite nskipn_app_exact; exact HP].
+    + (* a single slash *)
+      match goal with |- context [if negb (starts_with_wdl_segment after_first) then ?a else ?b] =>
+        set (T := if negb (starts_with_wdl_segment after_first) then a else b) end.
+      assert (snd (fst T) <= nlen (fst (fst T)) /\ forallb nb (nskipn (snd (fst T)) (fst (fst T))) = true) as HT.
+      { assert (7 <= nlen s_file_css /\ forallb nb (nskipn 7 s_file_css) = true) as Hplain by (split; [vm_compute; discriminate | reflexivity]).
+        subst T. destruct (negb (starts_with_wdl_segment after_first)); [|exact Hplain].
+        destruct base_file as [base|]; [|exact Hplain].
+        destruct (base_first_segment base) as [seg|]; [|exact Hplain].
+        destruct (is_normalized_wdl seg) eqn:Ew.
+        - destruct (normalized_wdl_form seg Ew) as (a & -> & Ha). cbn [fst snd].
+          split; [vm_compute; discriminate|].
+          replace 7 with (nlen s_file_css) by reflexivity. rewrite nskipn_app_exact. cbn [app forallb].
+          rewrite (nb_alpha a Ha). reflexivity.
+        - destruct (host_str base) as [[hs|]|]; try exact Hplain. cbn [fst snd].
+          split; [lia|]. rewrite nskipn_all by lia. reflexivity. }
+      destruct T as [[ser1 he] hi]. cbn [fst snd] in HT. destruct HT as [Hle Hq].
+      intros H. pb H a Ha. destruct a as [[ser2 hh] remaining]. pb H c Hc. destruct c as [[ser3 qs] fs]. inversion H; subst u.
+      assert (nlen (nfirstn he ser1) = he) as Lp by (apply nlen_nfirstn; exact Hle).
+      assert (PInvB he (nfirstn he ser1) ser1) as I1 by (split; [reflexivity | exact Hq]).
+      pose proof (pinvb_parse_path dbg he _ CUrlParser STFile Lp eq_refl _ _ _ _ _ _ Ha I1) as I2.
+      apply (file_tail_nb st ser2 _ _ _ remaining ser3 qs fs Hc); [exact (pinvb_len he _ STFile Lp _ I2) | exact (proj2 I2)].
+  - destruct base_file as [base|]; [|apply file_fresh_nb].
+    destruct Hb as (Wb & Ab & Nb).
+    destruct first_char as [c|].
+    2:{ intros H. inversion H; subst u. exact (cut_fragment_nb base Wb Nb). }
+    destruct (c =? 63).
+    { intros H. pb H a Ha. destruct a as [[s qs] fs]. inversion H; subst u. exact (query_ref_nb ovr base st _ l s qs fs Wb Nb Ha). }
+    destruct (c =? 35); [intros H; exact (fragment_only_nb base l u Wb Nb H)|].
+    destruct (negb (starts_with_wdl_segment l)); [|apply file_fresh_nb].
+    intros H. pb H s1 Hs1. pb H a Ha. destruct a as [[s2 hh] rem].
+    pose proof (path_start_le_len base Wb) as PL.
+    assert (nlen (nfirstn (path_start base) (ser base)) = path_start base) as Lp by (apply nlen_nfirstn; exact PL).
+    pose proof (pinvb_shorten_path (path_start base) _ STFile Lp _ _ Hs1 (bq_pinvb base Wb Nb)) as I1.
+    pose proof (pinvb_parse_path dbg (path_start base) _ CUrlParser STFile Lp eq_refl _ _ _ _ _ _ Ha I1) as I2.
+    pose proof (pinvb_len _ _ STFile Lp _ I2) as L2. destruct I2 as [J1 J2].
+    apply (base_path_nb STFile base s2 rem u Wb Ab); [|exact L2|exact J2|exact H].
+    unfold agree_pre. rewrite J1. reflexivity.
+Qed.
+
+(* ---------- top level ---------- *)
+Theorem parse_with_scheme_bs base sch l u :
+  match base with Some b => wf_b b = true /\ AS b /\ BS b | None => True end ->
+  parse_with_scheme dbg hp hpo hd ovr base sch l = POk u -> BS u.
+Proof.
+  intros Hb. unfold parse_with_scheme. intros H. pb H se Hse. apply to_u32_eq in Hse. subst se. cbv zeta in H.
+  assert (nlen (sch ++ [58]) = nlen sch + 1) as L0 by (rewrite nlen_app; reflexivity).
+  assert (nnth (sch ++ [58]) (nlen sch) = Some 58) as L58 by apply nnth_last.
+  destruct (scheme_type_of sch) eqn:Est.
+  - intros _. eapply parse_file_nb; [|exact H].
+    destruct base as [b|]; [|exact I]. destruct (list_eqb (b_scheme b) s_file) eqn:Eb; [|exact I].
+    destruct Hb as (W & A & K). apply list_eqb_spec in Eb.
+    assert (spb b = true) as Esb by (unfold spb; rewrite Eb; reflexivity).
+    split; [exact W|]. split; [exact (A Esb) | exact (K Esb)].
+  - destruct (inp_count_matching is_slash_or_bslash l) as [slashes remaining].
+    assert (forall X, after_double_slash dbg hp hpo hd ovr CUrlParser STSpecialNotFile (nlen sch) (sch ++ [58]) X = POk u -> BS u) as Hads.
+    { intros X HX _. exact (ads_nb STSpecialNotFile _ _ X u eq_refl L0 L58 HX). }
+    destruct base as [b|]; [|exact (Hads _ H)].
+    destruct ((slashes <? 2) && list_eqb (b_scheme b) sch) eqn:Ec; [|exact (Hads _ H)].
+    apply andb_true_iff in Ec. destruct Ec as [_ Ec]. apply list_eqb_spec in Ec.
+    pb H x Hx. destruct Hb as (W & A & K). intros _.
+    assert (spb b = true) as Esb by (unfold spb; rewrite Ec, Est; reflexivity).
+    apply (parse_relative_nb STSpecialNotFile b l u W (A Esb) (K Esb) eq_refl eq_refl); [|exact H].
+    exact (as_bk b W A Esb).
+  - destruct (pns_bk dbg hp hpo hd ovr _ _ _ _ u L0 H) as (K1 & K2). intros Hs. exfalso.
+    unfold spb, b_scheme in Hs. rewrite K1, K2, nfirstn_app_exact, Est in Hs. discriminate.
+Qed.
+
+Theorem parse_url_bs base input u :
+  match base with Some b => wf_b b = true /\ AS b /\ BS b | None => True end ->
+  parse_url dbg hp hpo hd ovr base input = POk u -> BS u.
+Proof.
+  intros Hb. unfold parse_url. cbv zeta.
+  destruct (parse_scheme CUrlParser (input_new_trim_c0 input)) as [[sch rem]|].
+  - apply parse_with_scheme_bs. exact Hb.
+  - destruct base as [b|]; [|discriminate]. destruct Hb as (W & A & K).
+    destruct (inp_starts_with_char 35 (input_new_trim_c0 input)).
+    { intros H Hs. eapply (fragment_only_nb b); [exact W | | exact H]. apply K.
+      pose proof H as H'. unfold fragment_only in H'. cbv zeta in H'. pb H' fs Hfs. inversion H'; subst u. clear H'.
+      unfold spb, b_scheme in *. cbn [scheme_end ser] in Hs. rewrite parse_fragment_text, <- app_assoc in Hs.
+      pose proof (wf_se_lt_ps b W) as L1. destruct (wf_ps_le_path_end b W) as [L2 L3].
+      destruct (bf_path_end b W) as (B1 & B2 & _).
+      rewrite nfirstn_app_le in Hs by lia. rewrite (pre_firstn _ _ _ (scheme_end b) B1) in Hs by lia. exact Hs. }
+    rewrite (cannot_be_a_base_eval b W).
+    destruct (byte_eqb (ser b) (scheme_end b + 1) 47) eqn:Eb; cbn [negb]; [|discriminate].
+    apply byte_eqb_nnth in Eb.
+    destruct (st_is_file (scheme_type_of (b_scheme b))) eqn:Ef.
+    + intros H _. eapply (parse_file_nb _ (Some b)); [|exact H].
+      assert (spb b = true) as Esb by (unfold spb; destruct (scheme_type_of (b_scheme b)); try discriminate Ef; reflexivity).
+      split; [exact W|]. split; [exact (A Esb) | exact (K Esb)].
+    + intros H Hs. destruct (parse_relative_bk dbg hp hpo hd ovr _ b _ u W Eb Ef H) as (K1 & K2 & _).
+      assert (spb b = true) as Esb by (unfold spb, b_scheme in *; rewrite K1, K2 in Hs; exact Hs).
+      eapply (parse_relative_nb _ b); [exact W | exact (A Esb) | exact (K Esb) | exact Esb | exact Ef | exact Eb | exact H].
+Qed.
+
 End Arms.
